@@ -645,14 +645,17 @@ pub fn aligned_descendant_sweep(ctx: &Ctx, mode: Mode, total: &mut Part) -> Valu
       let span = 2 * (dm - dl) as u32;
       for k in 0..(dm - dl) as u32 {
         for j in [1u64, 2, 3, 5, 6] {
-          let off = j << (2 * k);
-          if off >> span != 0 {
+          let off0 = j << (2 * k);
+          if off0 >> span != 0 {
             continue;
           }
           if ctx.over_budget() {
             total.caps.push(format!("wall budget {}s reached in the aligned-descendant sweep", ctx.budget_s));
             return json!({"search": "aligned-descendants", "capped": true});
           }
+          // the aligned descendant, and the one just before it (its k low base-4 digits are all 3:
+          // it looks like the last descendant of a cell k levels up, in any test made on k digits)
+          for off in [off0, off0 - 1] {
           let deep = (l << span) + off;
           // flag mixes (Moc mode: all full)
           let mixes: &[(bool, bool)] = if mode == Mode::Moc { &[(true, true)] } else { &[(true, true), (false, true), (true, false), (false, false)] };
@@ -688,12 +691,13 @@ pub fn aligned_descendant_sweep(ctx: &Ctx, mode: Mode, total: &mut Part) -> Valu
               }
             }
           }
+          }
         }
       }
     }
   }
   json!({"search": "aligned-descendants", "operand_pairs": n, "coarse_cells": "depth 0, 2, 4", "deep_depth_max": [20, 29],
-    "offsets": "j * 4^k for every k below the depth difference, j in {1, 2, 3, 5, 6}", "flags": "all four mixes for the flagged modes"})
+    "offsets": "j * 4^k and j * 4^k - 1 for every k below the depth difference, j in {1, 2, 3, 5, 6}", "flags": "all four mixes for the flagged modes"})
 }
 
 
